@@ -8,12 +8,12 @@ cd $wt || exit 2
 git checkout -q -- . ; rm -f $pkg/zz_demo_test.go
 git apply _out/mut$n.diff || { echo "PATCH DOES NOT APPLY"; exit 2; }
 echo "--- existing tests with change ($pkgs)"
-go test -vet=off -count=1 -timeout 25m $pkgs 2>&1 | grep -v "no test files" | tail -15
+unshare -n sh -c "ip link set lo up 2>/dev/null; go test -vet=off -count=1 -timeout 25m $pkgs" 2>&1 | grep -v "no test files" | tail -15
 cp _out/demo${n}_test.go $pkg/zz_demo_test.go
 echo "--- demo with change (expect FAIL)"
-go test -vet=off -count=1 -timeout 10m ./$pkg/ 2>&1 | grep -E "^(--- FAIL|FAIL|ok|panic)" | head -5
+unshare -n sh -c "ip link set lo up 2>/dev/null; go test -vet=off -count=1 -timeout 10m ./$pkg/" 2>&1 | grep -E "^(--- FAIL|FAIL|ok|panic)" | head -5
 git checkout -q -- .
 echo "--- demo without change (expect ok)"
-go test -vet=off -count=1 -timeout 10m ./$pkg/ 2>&1 | grep -E "^(--- FAIL|FAIL|ok|panic)" | head -5
+unshare -n sh -c "ip link set lo up 2>/dev/null; go test -vet=off -count=1 -timeout 10m ./$pkg/" 2>&1 | grep -E "^(--- FAIL|FAIL|ok|panic)" | head -5
 rm -f $pkg/zz_demo_test.go
 git status --short | grep -v _out
